@@ -209,9 +209,15 @@ def check_matching(sc, computed, props):
         for r, c in consumed.items():
             if c > Fr(by_row[r]["amount"]):
                 out.append(("C02", f"lot row {r} overspent: {c} > {by_row[r]['amount']}"))
-        for t in sc["txs"]:
-            if taxable(t) and done.get(t["row"], Fr(0)) != need_of(t):
-                out.append(("C02" if t["tab"] != "IN" else "C03", f"taxable event row {t['row']} covered for {done.get(t['row'], 0)} instead of {need_of(t)}"))
+    for t in sc["txs"]:
+        got = done.get(t["row"], Fr(0))
+        if taxable(t) and got != need_of(t):
+            if got == 0 and "C03" in props:
+                out.append(("C03", f"taxable transaction row {t['row']} ({t['tab']}/{t.get('type', 'move')}) was dropped: no fraction reports it"))
+            if t["tab"] != "IN" and "C02" in props:
+                out.append(("C02", f"taxable event row {t['row']} covered for {got} instead of {need_of(t)}"))
+            if t["tab"] == "IN" and got != 0 and "C03" in props:
+                out.append(("C03", f"earn event row {t['row']} reported for {got} instead of its full amount {need_of(t)}"))
     if "C03" in props:
         for r in done:
             if not taxable(by_row[r]):
@@ -370,8 +376,8 @@ def run_scenario(sc, props):
         base, base_err = None, str(exc)
     cov = coverable(sc)
     if "C02" in props:
-        if base_err is not None and cov and "crypto value" in base_err:
-            out.append(("C02", f"valid history rejected: {base_err}"))
+        if base_err is not None and cov:
+            out.append(("C02", f"valid history (every disposal coverable by earlier lots) rejected: {base_err[:200]}"))
         if base_err is None and not cov:
             out.append(("C02", "history whose lots cannot cover a disposal was accepted"))
     if base_err is not None and cov and "C02" not in props and props & {"C01", "C03", "C04", "C05"}:
